@@ -5,6 +5,12 @@ ALL = ["C%02d" % i for i in range(1, 21)]
 
 CHECKS = [
     {
+        "property_id": "C09",
+        "text": "Coq theorems for the byte-level codecs (version vector: round trip, truncation rejected, work bounded by input; int64; snapshot header) and for the ticket-shape table of operations (accepted => every dereferenced ticket present). Losslessness of the protobuf conversions is decided differentially: every pack, stored change and snapshot of generated two-author histories goes through each encoding and the replicas are compared (content, garbage, canonical structure); a structure-aware hostile stream is decoded AND executed under recover/timeout/memory limit.",
+        "note": "PARTIAL proof (no Coq model of to_pb/from_pb/to_bytes/from_bytes). Several genuine defects were repaired (P18, P36, P37, P38); known findings P32a/P32b/P33/P34 are attributed by signature.",
+        "technique": "Coq proof (byte codecs, ticket shapes) + differential round-trip replicas + decode-then-execute hostile stream",
+    },
+    {
         "property_id": "C13",
         "text": "Coq theorems over a project-scoped store model: integrity (another project's rows never change) and confidentiality (the response is a function of the caller's own project's rows: foreign id = nonexistent id) for every database, request and YorkieService handler program, plus credential-gate theorems for the three services. Real server: every procedure from the service descriptors x credentials x every subset of victim-owned id fields, with byte-level dump of the victim's tables, blind-verdict and no-leak oracles; verdicts judged by the model.",
         "note": "Admin/Cluster handlers are covered by the gate theorems and by the engine's oracles only (PARTIAL). Error messages are not part of the observable.",
